@@ -11,6 +11,8 @@
 (*                 the nearest loop is in iteration w                      *)
 (*    end          closes the innermost open scope                         *)
 (*    jmp(k, l)    break / continue (l = 1: to label `a), return, try      *)
+(*                 (a `.try` on nil: it propagates)                        *)
+(*    tryok        a `.try` on a present value: control stays in the block *)
 (* After every blk / loop that is left normally a marker is printed, and a *)
 (* final marker "$" when the function body falls off its end.              *)
 (*                                                                         *)
@@ -82,6 +84,7 @@ ExecSeq(p, k, e, pend, out, it) ==
     LET tk == p[k] IN
     CASE tk.t = "d" -> ExecSeq(p, k + 1, e, Append(pend, k), out, it)
       [] tk.t = "mark" -> ExecSeq(p, k + 1, e, pend, Append(out, <<"$", 0>>), it)
+      [] tk.t = "tryok" -> ExecSeq(p, k + 1, e, pend, out, it)
       [] tk.t = "jmp" ->
             LET tp == Target(p, k)
                 kind == IF tk.a = "continue" THEN "continue" ELSE "break"
@@ -143,6 +146,13 @@ AddDefer == /\ ~LastIsJump
                                ELSE Enclosing(closedp, k) # <<>> /\ Enclosing(closedp, k)[1] = start)}
                IN Cardinality(mine) < MaxDefers
 
+(* a succeeding `.try` only matters after a defer of the same function *)
+AddTryOk == /\ ~LastIsJump
+            /\ prog # <<>> /\ prog[Len(prog)].t # "tryok"
+            /\ \E k \in 1..Len(prog) : prog[k].t = "d"
+            /\ AppendTok(Tok("tryok", 0, 0))
+            /\ UNCHANGED <<stack, njumps>>
+
 Open(kind, a) == /\ ~LastIsJump
                  /\ Len(stack) < MaxDepth
                  /\ Len(prog) + 1 < MaxLen          \* room for the matching end
@@ -170,6 +180,7 @@ Jump(kind, l) ==
 Fits == Len(prog) + Len(stack) <= MaxLen
 
 Next == \/ AddDefer
+        \/ AddTryOk
         \/ \E a \in {0, 1} : Open("blk", a) \/ Open("loop", a)
         \/ \E w \in {0, 1, 2} : Open("cblk", w)
         \/ Close
